@@ -286,6 +286,31 @@ def regen_errno(ctx):
             os.remove(p)
 
 
+def regen_leaf(ctx, modules=None):
+    """regenerate coq/gen/Leaf.v and coq/gen/Constants.v (leaf functions and constants of the C sources translated to
+    Gallina by tools/translate_leaf.py).  `modules`: the generated Coq modules (Ring, Digest, Bump, Hash, BTree, Env,
+    Path, Copy, Sem) the calling check's Properties_leaf_<x>.v depends on (None: all).  A function or constant that no
+    longer fits the translator's fragment is left out of the regenerated file (so the theorem about it cannot be
+    re-checked against old code) and reported as `translator:`; if the tool itself fails the stale files are removed."""
+    r = subprocess.run([sys.executable, os.path.join(VERIF, "tools", "translate_leaf.py")], capture_output=True, text=True)
+    if r.returncode == 0:
+        return
+    refused = re.findall(r"^translate_leaf: REFUSED (\w+)\.(\S+): (.*)$", r.stderr, re.M)
+    if r.returncode == 2 and refused:
+        for mod, name, why in refused:
+            msg = "translator:leaf %s.%s refused: %s" % (mod, name, why[:200])
+            if (modules is None or mod in modules) and msg not in ctx.broken:
+                ctx.broken.append(msg)
+        return
+    msg = "translator:translate_leaf.py failed (rc=%d): %s" % (r.returncode, r.stderr.strip()[-300:])
+    if msg not in ctx.broken:
+        ctx.broken.append(msg)
+    for f in ("Leaf.v", "Constants.v", ".leaf.stamp"):
+        p = os.path.join(COQ, "gen", f)
+        if os.path.exists(p):
+            os.remove(p)
+
+
 TRUSTED_BASE = [
     "Coq 8.16.1 kernel incl. vm_compute (no native_compute)",
     "extraction to OCaml with ExtrOcamlBasic directives only (bool/option/unit/prod/list/sumbool/sumor mapped to OCaml types; andb/orb/negb/fst/snd inlined); Z/N/nat/positive stay extracted inductives",
